@@ -60,9 +60,9 @@ def make_layout(root, layout):
 
 # op menu: name -> (kind, fn(container, cur) -> (old, new, call))
 def op_menu():
-    def cas(new, via=M, stale=False):
+    def cas(new, via=M, stale=False, absent=False):
         def mk(c, cur):
-            old = V(9) if stale else (V(cur) if cur else b"0" * 40)
+            old = V(9) if stale else b"0" * 40 if absent else (V(cur) if cur else b"0" * 40)
             return (val_index(old), new, lambda: c.set_if_equals(via, old, V(new)))
         return ("set_if_equals", mk)
 
@@ -114,6 +114,8 @@ def op_menu():
             return (0, 0, call)
         return ("pack_refs", mk)
     return {
+        # create-if-absent with the value the packed entry holds in the packed / both layouts
+        "cas01": cas(1, absent=True),
         "cas3": cas(3), "cas4": cas(4), "cas3h": cas(3, via=HEAD), "casStale": cas(5, stale=True),
         "add3": add(3), "add4": add(4), "rm": rm(), "rmU": rm(False), "set3": setu(3), "set4": setu(4),
         "del": delu(), "read": read(), "readH": read(HEAD), "asdict": asdict(), "pack": pack(),
@@ -848,7 +850,7 @@ def combos(ctx):
            ("rm", "read"), ("rm", "cas3"), ("rm", "pack"), ("add3", "add4"), ("add3", "pack"),
            ("set3", "cas4"), ("del", "cas3"), ("cas3h", "cas4"), ("cas3h", "pack"), ("readH", "pack"),
            ("rmU", "readH"), ("casStale", "cas3"), ("del", "pack"), ("set3", "pack"), ("rm", "asdict"),
-           ("rm", "add3"), ("del", "add3")]
+           ("rm", "add3"), ("del", "add3"), ("cas01", "rm"), ("cas01", "del"), ("cas01", "rmU")]
     three = [("cas3", "cas4", "pack"), ("cas3", "pack", "read"), ("rm", "pack", "read"), ("cas3", "rm", "read"),
              ("set3", "pack", "pack"), ("cas3", "rmU", "read"), ("set3", "del", "read")]
     seq2 = [(("cas3", "read"), ("pack",)), (("pack", "read"), ("cas3",)), (("rm", "read"), ("pack",)),
